@@ -374,3 +374,52 @@ theorem findFrom_module_has_file (fs : FS) (name : Name) (l : List (Option Path)
             exact ih h
 
 end Inv.Loader
+
+/-! ### histories on one loader object -/
+
+namespace Inv.Loader
+
+theorem worldAfter_cons (w : World) (s : LStep) (r : List LStep) : worldAfter w (s :: r) = worldAfter (s.after w) r := rfl
+
+theorem runLoader_load (l : LoaderObj) (w : World) (name : Name) (r : List LStep) :
+    runLoader l w (.load name :: r) = l.loadAt w.fs w.cwd name :: runLoader l w r := by
+  simp [runLoader]
+
+theorem runLoader_chdir (l : LoaderObj) (w : World) (p : Path) (r : List LStep) :
+    runLoader l w (.chdir p :: r) = runLoader l (LStep.after w (.chdir p)) r := by
+  simp [runLoader]
+
+theorem runLoader_setFs (l : LoaderObj) (w : World) (fs : FS) (r : List LStep) :
+    runLoader l w (.setFs fs :: r) = runLoader l (LStep.after w (.setFs fs)) r := by
+  simp [runLoader]
+
+theorem runLoader_readStart (l : LoaderObj) (w : World) (r : List LStep) :
+    runLoader l w (.readStart :: r) = runLoader l w r := by
+  simp [runLoader, LStep.after]
+
+/-- a history splits anywhere: the second part is answered as by a history started in the process state
+    (working directory, filesystem) the first part left behind; earlier uses of the loader leave no trace -/
+theorem runLoader_append (l : LoaderObj) (pre post : List LStep) : ∀ w : World,
+    runLoader l w (pre ++ post) = runLoader l w pre ++ runLoader l (worldAfter w pre) post := by
+  induction pre with
+  | nil => intro w; simp [runLoader, worldAfter]
+  | cons s r ih =>
+    intro w
+    cases s with
+    | load name =>
+      simp only [List.cons_append, runLoader_load, worldAfter_cons, LStep.after, List.cons.injEq, true_and]
+      exact ih w
+    | chdir p => simp only [List.cons_append, runLoader_chdir, worldAfter_cons]; exact ih _
+    | setFs fs => simp only [List.cons_append, runLoader_setFs, worldAfter_cons]; exact ih _
+    | readStart => simp only [List.cons_append, runLoader_readStart, worldAfter_cons, LStep.after]; exact ih w
+
+/-- `os.path.abspath(os.getcwd())` is the working directory -/
+theorem absPath_getcwd (cwd cwd' : Path) (h : ∀ c ∈ cwd, Plain c) : absPath cwd' true ([] :: cwd) = cwd := by
+  simp only [absPath, if_true, List.foldl_cons]
+  have h0 : normStep [] [] = [] := by simp [normStep]
+  rw [h0, foldl_normStep_plain cwd h []]
+  simp
+
+theorem noEmpty_of_plain (p : Path) (h : ∀ c ∈ p, Plain c) : NoEmpty p := fun c hc => (h c hc).1
+
+end Inv.Loader
